@@ -192,6 +192,11 @@ def parseItem (s : String) : Option SeqItem :=
   | ["s", j, m, az] => do pure (.helper (← j.toNat?) (← m.toNat?) (← parseArgs az))
   | ["t", j, "i"] => j.toNat?.map (.trigger · 0)
   | ["t", j, "f"] => j.toNat?.map (.trigger · 1)
+  | ["o", sc, k] => do
+    let kind ← match k with
+      | "s" => some OtherKind.struct | "e" => some .enum | "t" => some .typedef | "b" => some .cbuffer
+      | "n" => some .namespace | _ => none
+    pure (.other (← sc.toNat?) kind)
   | _ => none
 
 def parseSeqPath (s : String) : Option SeqPath :=
@@ -209,10 +214,14 @@ def seqStrings (p : SeqPath) (structHelpers : List Nat) (st : SeqState) : List S
       | none, _ => []
       | some .noname, _ => ["noname"]
       | some .cached, _ => ["="]
-      | some (.verdict _), .site m x a => [match st.visible p m with | some v => callString v x a | none => "model-internal-mismatch"]
+      | some .isType, .site .. => ["type"]
+      -- whether a body whose call became a constructor expression is accepted (and the instance then has a body) is
+      -- decided by `parse_expr_constructor`, which is not modelled
+      | some .isType, _ => ["unsupported: a constructor expression in a template body"]
+      | some (.verdict _), .site m x a => [match st.visible p m with | .functions v => callString v x a | _ => "model-internal-mismatch"]
       | some (.verdict _), .trigger j _ =>
         [match lookupHelper j st.helpers with
-         | some (m, a) => (match st.visible p m with | some v => callString v [] a | none => "model-internal-mismatch")
+         | some (m, a) => (match st.visible p m with | .functions v => callString v [] a | _ => "model-internal-mismatch")
          | none => "model-internal-mismatch"]
       | some (.verdict _), _ => ["model-internal-mismatch"]
     -- a call refused inside a method body of a struct template is reported at the use of the template, without the reason
